@@ -253,11 +253,24 @@ class C16(Prop):
             await api.connect()
             conn = mp.conns[-1]
             trace = []
-            for n in range(14 if r.random() > 0.1 else 130):
+            x_len = r.random()
+            n_calls = 14 if x_len > 0.13 else (130 if x_len > 0.03 else 640)
+            early = []         # (reported, request) of the first calls of a very long history: asked again at its end
+            if n_calls == 640:
+                acc.count("very_long_histories_on_one_remote_object")
+            for n in range(n_calls + (60 if n_calls == 640 else 0)):
                 new_report()
-                a = request_for(r.randrange(32), r)
-                if r.random() < 0.25:
+                a = request_for(r.randrange(32) if n_calls < 640 else r.choice([31, 15, 14, 30, 7]), r)
+                if r.random() < 0.25 and n_calls < 640:
                     a["update_state"] = True
+                if n_calls == 640:
+                    if n < 60:
+                        early.append((dict(reported), dict(a)))
+                    elif n >= n_calls:
+                        rep_, a = early[n - n_calls]
+                        reported.clear()
+                        reported.update(rep_)
+                        a = dict(a)
                 world = {"reported": dict(reported), "irset": irset}
                 plan = ops.breeze_plan(a, reported, irset)
                 nframes = 1 + (len(plan[1]) if plan[0] == "ok" else 0)
